@@ -143,28 +143,6 @@ Proof.
 Qed.
 Print Assumptions C06_shallow_refuted.
 
-(* Parameter values are payload (immutable) in C06_frame.  The faithful model of the sequential
-   mode's defaults - a parameter value that is a REFERENCE to one of the caller's mutable objects,
-   stored uncopied by Processor.set - refutes the statement: full statement, witness (finding
-   C06-ndarray-default-aliased; the true restriction is C06_frame itself, whose run hypothesis
-   excludes such references) *)
-Definition C06_frame_reference_params_full : Prop :=
-  forall (res : Type) (run : loc -> heap -> loc -> heap * res),
-    (forall d s l, frame2_ok s l d (fst (run d s l))) ->
-    forall rs s0 p sn out,
-      observe loc res run src_policy Deep rs s0 p = Some (sn, out) ->
-      forall x, x < length s0 -> nth_error sn x = nth_error s0 x.
-
-Theorem C06_reference_param_refuted : ~ C06_frame_reference_params_full.
-Proof.
-  assert (W : exists sn out, observe loc Z run_param src_policy Deep [7; 7] demo_heap 0 = Some (sn, out) /\
-                             nth_error sn 7 <> nth_error demo_heap 7).
-  { vm_compute. do 2 eexists. split; [reflexivity|]. intro H; inversion H. }
-  intro F. destruct W as [sn [out [E N]]]. apply N.
-  eapply (F Z run_param run_param_frame2); [exact E|]. simpl; lia.
-Qed.
-Print Assumptions C06_reference_param_refuted.
-
 (* ------------------------------------------------------------------ failing runs (round 2) *)
 
 (* what the current source says about the five copy sites: none of them writes to anything derived
@@ -265,25 +243,54 @@ Proof.
 Qed.
 Print Assumptions C06_touching_site_refuted.
 
-(* a site that deep-copies the VALUE before handing it to Processor.set keeps the frame even for
-   parameter values that are references to the caller's mutable objects (runs may then change what
-   they reach from their processor or from the value they were given) *)
-Theorem C06_value_copy_frame :
+(* ------------------------------------------------------------------ reference-valued parameters *)
+
+(* Parameter values are payload (immutable) in C06_frame.  A parameter value can also be a REFERENCE
+   to one of the caller's mutable objects: in sequential mode the default of every swept key is
+   processor.get(key) of the CALLER's processor (an ndarray, the inner lists of a nested list), in
+   calibration it is a numpy view of the candidate vector shared by all processors of the candidate.
+   The run may then change what it reaches from its processor OR from the value it was given.
+   The sites that hand such values on - create_new_processor, update_processor - deep-copy the value
+   first (regenerated flag src_value_copy; repaired by the fix: commits, formerly the findings
+   C06-ndarray-default-aliased / C06-container-default-aliased / C06-fitness-slice-view-shared), and
+   with that copy the frame statement holds with NO exception for reference-valued parameters *)
+Definition C06_frame_reference_params_statement (vcopy : bool) : Prop :=
   forall (res : Type) (run : loc -> heap -> loc -> heap * res),
     (forall d s l, frame2_ok s l d (fst (run d s l))) ->
     forall ds s0 p sn out,
-      observe_ref res run true src_policy ds s0 p = Some (sn, out) ->
+      observe_ref res run vcopy src_policy ds s0 p = Some (sn, out) ->
       forall x, x < length s0 -> nth_error sn x = nth_error s0 x.
+
+Theorem C06_frame_reference_params :
+  C06_frame_reference_params_statement (flag_of src_value_copy "create_new_processor") /\
+  C06_frame_reference_params_statement (flag_of src_value_copy "update_processor").
 Proof.
-  intros res run Hfr ds s0 p sn out H x Hx.
-  eapply observe_ref_frame; eauto; vm_compute; reflexivity.
+  assert (E1 : flag_of src_value_copy "create_new_processor" = true) by (vm_compute; reflexivity).
+  assert (E2 : flag_of src_value_copy "update_processor" = true) by (vm_compute; reflexivity).
+  rewrite E1, E2.
+  assert (G : C06_frame_reference_params_statement true).
+  { intros res run Hfr ds s0 p sn out H x Hx.
+    eapply observe_ref_frame; eauto; vm_compute; reflexivity. }
+  split; exact G.
 Qed.
-Print Assumptions C06_value_copy_frame.
+Print Assumptions C06_frame_reference_params.
 
 Example value_copy_demo :
   exists sn, observe_ref Z run_param true src_policy [7; 7] demo_heap 0 = Some (sn, [1; 1]%Z) /\
              nth_error sn 7 = nth_error demo_heap 7.
 Proof. vm_compute. eexists. split; reflexivity. Qed.
+
+(* non-vacuity: the copy of the value is what makes it true - a site that hands the caller's object
+   on as it is (what create_new_processor did before the repair) loses the frame *)
+Theorem C06_value_copy_necessary : ~ C06_frame_reference_params_statement false.
+Proof.
+  assert (W : exists sn out, observe_ref Z run_param false src_policy [7; 7] demo_heap 0 = Some (sn, out) /\
+                             nth_error sn 7 <> nth_error demo_heap 7).
+  { vm_compute. do 2 eexists. split; [reflexivity|]. intro H; inversion H. }
+  intro F. destruct W as [sn [out [E N]]]. apply N.
+  eapply (F Z run_param run_param_frame2); [exact E|]. simpl; lia.
+Qed.
+Print Assumptions C06_value_copy_necessary.
 
 (* and the shallow copy of the whole processor (copy.copy) shares everything below it *)
 Example shallow_shares :
